@@ -466,7 +466,8 @@ def run (s : St) : List (List Nat) → List Cb
 
 /-- **refinement**: feeding any legitimate transmission hands the application exactly
     `Spec.expected` -/
-theorem run_refines (txs : List Spec.Tx) : ∀ (s : St), s.ri = none →
+theorem run_refines (txs : List Spec.Tx) (hnr : ∀ t ∈ txs, ∀ p, t ≠ Spec.Tx.damagedRep p) :
+    ∀ (s : St), s.ri = none →
     (∀ t ∈ txs, Spec.Tx.Sent s.channel s.address t) →
     (run s (txs.map Spec.Tx.bytes)).map (fun cb => (cb.flags, cb.bytes)) = Spec.expected s.flags s.ci txs := by
   induction txs with
@@ -475,7 +476,9 @@ theorem run_refines (txs : List Spec.Tx) : ∀ (s : St), s.ri = none →
     intro s hsri hall
     have ht := hall t (by simp)
     have hr : ∀ t ∈ r, Spec.Tx.Sent s.channel s.address t := fun x hx => hall x (by simp [hx])
+    have ih := ih (fun x hx p => hnr x (by simp [hx]) p)
     cases t with
+    | damagedRep p => exact absurd rfl (hnr _ (by simp) p)
     | data p =>
       obtain ⟨hv, hch, haddr, hrep⟩ := ht
       have hf := feed_data s p hv hch.symm haddr.symm hsri hrep
